@@ -6,7 +6,7 @@ From Coq Require Import List Bool Arith PeanoNat ZArith Lia.
 From Leaspy Require Import Locality.AxisTypes Locality.AxisExamples.
 From Leaspy Require Dag.DagModel.
 From Leaspy Require Import State.StateModel State.StateNow State.Revert.
-From Leaspy Require Import Compose.DagState Compose.DagStateProofs Compose.AxisState Compose.AxisStateProofs.
+From Leaspy Require Import Compose.DagState Compose.DagStateProofs Compose.AxisState Compose.AxisStateProofs Compose.AxisEval.
 Import ListNotations.
 
 (** ** a decidable form of the precondition of per-individual reverts, for any value type *)
@@ -136,4 +136,27 @@ Proof.
   - apply (well_typed_axis_closed Z Z.add toy2 toy2_fs 3%nat toy2_r None (proj1 toy2_accepted) (proj1 (proj2 toy2_accepted)));
       try reflexivity; vm_compute; lia.
   - intros H. specialize (H (p2 0)). vm_compute in H. assert (false = true) by (apply H; tauto). discriminate.
+Qed.
+
+(** the state after the history holds the inputs g = 10, xi = [1; 3; 3] (rows 0, 2 old, row 1 proposed), y = ys1, and what
+    it reads is C07's from-scratch evaluation of these inputs *)
+Definition toy2_inp (i : nat) : value Z :=
+  match i with
+  | 3%nat => VPop [10]
+  | 4%nat => VInd [[1]; [3]; [3]]
+  | 5%nat => VInd ys1
+  | _ => VPop []
+  end.
+
+Example toy2_reads_eval : exists st,
+  nth_error (fst (run_now toy2_g toy2_sem (init_store toy2_g) toy2_ops)) 0 = Some st /\
+  holds_inputs Z Z.add toy2 toy2_fs 3%nat toy2_r toy2_inp (values st) /\
+  eval Z Z.add toy2 toy2_fs toy2_inp 3%nat 1%nat = Some (VInd [[1]; [4]; [58]]).
+Proof.
+  destruct (nth_error (fst (run_now toy2_g toy2_sem (init_store toy2_g) toy2_ops)) 0) as [st|] eqn:E; [|vm_compute in E; discriminate].
+  exists st. split; [reflexivity|]. split; [|vm_compute; reflexivity].
+  vm_compute in E. injection E as <-.
+  intros x nd En K.
+  do 6 (destruct x as [|x]; [simpl in En; injection En as <-; try discriminate K; vm_compute; reflexivity|]).
+  destruct x; discriminate En.
 Qed.
